@@ -214,6 +214,9 @@ func (w *World) expect(prop, row string, verr error, ok bool, wantValid bool, de
 	if !ok {
 		return
 	}
+	if w.shareAs != "" {
+		prop = w.shareAs
+	}
 	w.stats.Inc("probe." + row + ".offered")
 	w.stats.Inc("probe.rows-run")
 	if (verr == nil) == wantValid {
